@@ -260,6 +260,7 @@ def run_case(case, driver, stats=None, trace=None):
     mops, post = [], []   # model ops; per model op a function (model_out) -> None | problem dict
     stream = []
     cur_dir_q = None       # exact value of the implementation's current direction
+    twin = [None, None]    # a second ranker that was handed the first one's direction (the setter takes any array) + the value it must keep
 
     def prob(k, clause, what, found, **detail):
         problems.append({"op": k, "clause": clause, "what": what, "found": bool(found), "theorem": THEOREM.get(clause, clause), "detail": detail})
@@ -320,6 +321,16 @@ def run_case(case, driver, stats=None, trace=None):
                     break
                 if dir_before is not None and snap_value(d) == dir_before:
                     prob(k, "reset-stale", "reset did not draw a new direction", True)
+                if twin[0] is not None and not np.array_equal(np.asarray(twin[0].target_measure_dir), twin[1]):
+                    prob(k, "reset", "resetting one ranker changed the direction of ANOTHER ranker that had been given the same direction and was "
+                         "not reset: %s -> %s" % (twin[1].tolist(), np.asarray(twin[0].target_measure_dir).tolist()), True)
+                    break
+                try:
+                    twin[0] = type(ranker)()
+                    twin[0].target_measure_dir = ranker.target_measure_dir
+                    twin[1] = np.array(ranker.target_measure_dir, copy=True)
+                except Exception:  # noqa
+                    twin[0] = None
                 stream.extend(fl(z))
                 d_q = fl(d)
                 sub_exact = all(fr(u) - fr(l) == fr(w) for u, l, w in zip(up, lo, up - lo))
